@@ -343,6 +343,7 @@ func runC19(c *vlib.Check) {
 	c.Rule = fmt.Sprintf("explicit-state enumeration of middleware programs: every chain of length 0..%d over stage behaviours {pass, short-circuit, call next twice, call next three times, replace the message, "+
 		"replace the context, fail before next, fail after next} for the client chain, the server message chain and the server batch-item chain, run on the real code; the recorded trace of "+
 		"(stage entry with context marker and message identity, core invocation, stage return with result identity) is compared with a recursive reference interpreter; "+
+		"registration histories: stages handed over in two registration calls from one caller-owned slice with spare capacity, two clients / executors built one after the other from it with different tails, each must run exactly its own stages in order; "+
 		"states = programs, transitions = trace events compared", maxLen)
 	c.Assumptions = []string{"a failing batch-item stage returns a non-nil item (the property does not say what the outermost caller does with (nil, err))",
 		"the client transport cannot observe the context: context markers are compared at stages only for the client chain"}
@@ -402,7 +403,139 @@ func runC19(c *vlib.Check) {
 			}
 		})
 	}
+	c19Registration(c)
 	c.Exhaustive = true
+}
+
+// c19Registration: registration histories. The stages of a chain are handed over in two registration calls (two
+// WithMiddlewares options / two Use or BatchItemUse calls) from one caller-owned slice with spare capacity, and a second
+// client / executor is then built from the same slice with a different tail. Each instance must run exactly the stages
+// registered on it, in registration order, whatever was built afterwards.
+func c19Registration(c *vlib.Check) {
+	type inst struct {
+		name string
+		run  func() ([]string, error)
+	}
+	stageNames := func(pfx string, n int) []string {
+		var r []string
+		for i := 0; i < n; i++ {
+			r = append(r, fmt.Sprintf("%s%d", pfx, i))
+		}
+		return r
+	}
+	n := 0
+	for baseLen := 0; baseLen <= 3; baseLen++ {
+		for tailLen := 1; tailLen <= 2; tailLen++ {
+			for _, kind := range []string{"client", "server-message", "server-batch-item"} {
+				label := fmt.Sprintf("%s chain: %d shared stage(s) from a slice with spare capacity + %d own stage(s), two instances built one after the other", kind, baseLen, tailLen)
+				c.Eval([]byte("registration "+label), true)
+				n++
+				rep := map[string]any{"kind": "registration-history", "case": label}
+				var traces [2]*tracer
+				var insts []inst
+				wantOf := func(which string) string {
+					return strings.Join(append(stageNames("base", baseLen), stageNames("own"+which+"-", tailLen)...), " ")
+				}
+				pv, site := vlib.Catch(func() {
+					switch kind {
+					case "client":
+						mk := func(tr **tracer, id string) kmipclient.Middleware {
+							return func(next kmipclient.Next, ctx context.Context, msg *kmip.RequestMessage) (*kmip.ResponseMessage, error) {
+								(*tr).log("%s", id)
+								return next(ctx, msg)
+							}
+						}
+						var cur *tracer
+						base := make([]kmipclient.Middleware, 0, 8)
+						for _, id := range stageNames("base", baseLen) {
+							base = append(base, mk(&cur, id))
+						}
+						for wi, which := range []string{"A", "B"} {
+							wi := wi
+							traces[wi] = &tracer{}
+							var tail []kmipclient.Middleware
+							for _, id := range stageNames("own"+which+"-", tailLen) {
+								tail = append(tail, mk(&cur, id))
+							}
+							stub := func(next kmipclient.Next, ctx context.Context, msg *kmip.RequestMessage) (*kmip.ResponseMessage, error) {
+								return mkResp("r"), nil
+							}
+							dialer := func(ctx context.Context) (net.Conn, error) { a, _ := net.Pipe(); return a, nil }
+							cl, err := kmipclient.DialContext(context.Background(), "pipe", kmipclient.WithDialerUnsafe(dialer), kmipclient.EnforceVersion(kmip.V1_4),
+								kmipclient.WithMiddlewares(base...), kmipclient.WithMiddlewares(tail...), kmipclient.WithMiddlewares(stub))
+							if err != nil {
+								panic(err)
+							}
+							insts = append(insts, inst{which, func() ([]string, error) {
+								cur = traces[wi]
+								_, err := cl.Roundtrip(context.Background(), mkReq("m"))
+								_ = cl.Close()
+								return traces[wi].ev, err
+							}})
+						}
+					default:
+						var cur *tracer
+						for wi, which := range []string{"A", "B"} {
+							wi := wi
+							traces[wi] = &tracer{}
+							exec := kmipserver.NewBatchExecutor()
+							exec.Route(kmip.OperationActivate, kmipserver.HandleFunc(func(ctx context.Context, req *payloads.ActivateRequestPayload) (*payloads.ActivateResponsePayload, error) {
+								return &payloads.ActivateResponsePayload{UniqueIdentifier: req.UniqueIdentifier}, nil
+							}))
+							ids := append(stageNames("base", baseLen), stageNames("own"+which+"-", tailLen)...)
+							if kind == "server-message" {
+								all := make([]kmipserver.Middleware, 0, 8)
+								for _, id := range ids {
+									id := id
+									all = append(all, func(next kmipserver.Next, ctx context.Context, msg *kmip.RequestMessage) (*kmip.ResponseMessage, error) {
+										cur.log("%s", id)
+										return next(ctx, msg)
+									})
+								}
+								exec.Use(all[:baseLen]...)
+								exec.Use(all[baseLen:]...)
+							} else {
+								all := make([]kmipserver.BatchItemMiddleware, 0, 8)
+								for _, id := range ids {
+									id := id
+									all = append(all, func(next kmipserver.BatchItemNext, ctx context.Context, bi *kmip.RequestBatchItem) (*kmip.ResponseBatchItem, error) {
+										cur.log("%s", id)
+										return next(ctx, bi)
+									})
+								}
+								exec.BatchItemUse(all[:baseLen]...)
+								exec.BatchItemUse(all[baseLen:]...)
+							}
+							insts = append(insts, inst{which, func() ([]string, error) {
+								cur = traces[wi]
+								exec.HandleRequest(context.Background(), mkReq("m"))
+								return traces[wi].ev, nil
+							}})
+						}
+					}
+				})
+				if pv != nil {
+					c.Violation("panic:registration:"+kind+":"+site, fmt.Sprintf("%s: %v", label, pv), rep)
+					continue
+				}
+				for _, in := range insts {
+					var got []string
+					var err error
+					if pv, site := vlib.Catch(func() { got, err = in.run() }); pv != nil {
+						c.Violation("panic:registration:"+kind+":"+site, fmt.Sprintf("%s: %v", label, pv), rep)
+						continue
+					}
+					c.Mu(func() { c.Transitions += int64(len(got)); c.States++; c.Traces++ })
+					if err != nil {
+						c.Violation("registration:"+kind+":call-failed", fmt.Sprintf("%s: instance %s: %v", label, in.name, err), rep)
+					} else if w := wantOf(in.name); strings.Join(got, " ") != w {
+						c.Violation("registration:"+kind+":stages-differ", fmt.Sprintf("%s: instance %s ran [%s], registered [%s]", label, in.name, strings.Join(got, " "), w), rep)
+					}
+				}
+			}
+		}
+	}
+	c.Extra["registration_histories"] = n
 }
 
 // c19Sig classifies a trace mismatch: does the first differing event concern a message identity
